@@ -8,13 +8,14 @@ WT="/tmp/seedwt.$ID.$$"; OUT="/tmp/seedchk.$ID.$$"
 [ -f "$SRC/patch.diff" ] && [ -f "$SRC/meta.json" ] || { echo "$ID: incomplete output in $SRC"; exit 3; }
 git -C /repo worktree add --detach "$WT" HEAD -q || exit 3
 trap 'git -C /repo worktree remove --force "$WT" >/dev/null 2>&1; rm -rf "$OUT" "$OUT.log"' EXIT
-CMD=$(jq -r .demo_cmd "$SRC/meta.json" | sed "s#<repo>#$WT#g")
+CMD=$(jq -r .demo_cmd "$SRC/meta.json" | sed "s#<repo>#$WT#g; s#/repo\b#$WT#g")
+RUNDIR="$SRC"; case "$CMD" in *"$WT"*) ;; *) RUNDIR="$WT";; esac
 cd "$SRC"
 if ! git -C "$WT" apply "$SRC/patch.diff"; then echo "$ID: PATCH-DOES-NOT-APPLY"; exit 3; fi
 ( cd "$WT" && go build ./... ) >/dev/null 2>&1 || { echo "$ID: patched tree does not build"; exit 3; }
-( cd "$SRC" && bash -c "$CMD" ) > "$OUT.demo1" 2>&1; d1=$?
+( cd "$RUNDIR" && bash -c "$CMD" ) > "$OUT.demo1" 2>&1; d1=$?
 git -C "$WT" apply -R "$SRC/patch.diff"
-( cd "$SRC" && bash -c "$CMD" ) > "$OUT.demo2" 2>&1; d2=$?
+( cd "$RUNDIR" && bash -c "$CMD" ) > "$OUT.demo2" 2>&1; d2=$?
 # remove demo files from the worktree, re-apply the patch, run the check
 git -C "$WT" clean -fdq; git -C "$WT" checkout -q -- .; git -C "$WT" apply "$SRC/patch.diff"
 VERIF_REPO="$WT" VERIF_OUT="$OUT" /verif/run "$ID" "${TIER:-quick}" > "$OUT.log" 2>&1; rc=$?
